@@ -1082,6 +1082,8 @@ function_number_t define_new_function (char *name, int num_arg, int num_local, u
   funp->children = 0L;
 #endif
 
+  if ((size_t)num_arg > num_local_variables_allowed)
+    num_arg = (int)num_local_variables_allowed; /* add_local_name() refused the rest ("Too many local variables") */
   if (exact_types && num_arg)
     {
       *((unsigned short *) mem_block[A_ARGUMENT_INDEX].block + num) = (unsigned short)(mem_block[A_ARGUMENT_TYPES].current_size / sizeof (unsigned short));
